@@ -113,7 +113,7 @@ func (p *Program) buildTransparent(rfile *refFile) {
 			if s == nil {
 				break
 			}
-			g = EnclosingTop(s.Parent())
+			g = rawTop(s.Parent())
 		}
 	}
 }
@@ -123,7 +123,7 @@ func siteOf(fn *ssa.Function) *ssa.Call {
 	if len(transparentSite) == 0 || fn == nil {
 		return nil
 	}
-	return transparentSite[EnclosingTop(fn)]
+	return transparentSite[rawTop(fn)]
 }
 
 // transparentCallee: in is the (unique) call of a transparent function.
@@ -197,4 +197,29 @@ func init() {
 			println(p.Pos(e.Pos()), FuncName(e.Parent()), "reach(no assume)=", r0, "reach(GET)=", r1, trailString(p, tr))
 		}
 	}
+}
+
+// resolveParam: a parameter of a transparent helper is the argument at its call site.
+func resolveParam(v ssa.Value) ssa.Value {
+	for i := 0; i < 8; i++ {
+		par, ok := v.(*ssa.Parameter)
+		if !ok {
+			return v
+		}
+		s := siteOf(par.Parent())
+		if s == nil || rawTop(par.Parent()) != par.Parent() {
+			return v
+		}
+		found := false
+		for j, q := range par.Parent().Params {
+			if q == par && j < len(s.Call.Args) {
+				v = s.Call.Args[j]
+				found = true
+			}
+		}
+		if !found {
+			return v
+		}
+	}
+	return v
 }
